@@ -19,4 +19,15 @@ CLAIMS = {
     },
 }
 
+CLAIMS['C09'] = {
+    'text': 'Lock: ownership writers and their dominating tests (mutual exclusion), the '
+            'wait in __aenter__ followed along the exceptional edge of every signal class '
+            '(designated owner passes the lock on, nobody swallows, non-designated waiters '
+            'never release), re-entrancy bookkeeping on every path of __aenter__/__aexit__, '
+            'suspension-free non-swallowing __aexit__, FIFO discipline of the waiter list, '
+            'and agreement of `available` with the no-wait condition. All paths enumerated; '
+            'fairness times are runtime values and not decided.',
+    'note': _NOTE,
+}
+
 NOT_APPLICABLE = {}
